@@ -95,7 +95,24 @@ pub fn gen_case(idx: u64) -> Case {
     let mut body: Vec<String> = vec![];
     let n_items = rng.range(1, 4);
     for item in 0..n_items {
-        match rng.below(10) {
+        match rng.below(11) {
+            10 => {
+                // a literal continued over a backslash-newline: the continuation line's leading
+                // blanks belong to the literal
+                let l1 = gen_lit(&mut rng, 3, false);
+                let l2 = gen_lit(&mut rng, 3, false);
+                note(&mut c, &l1);
+                note(&mut c, &l2);
+                let indent = ["", " ", "   ", "\t", " \t "][rng.below(5) as usize];
+                let name = format!("s{}", item);
+                let mut b = l1.bytes.clone();
+                b.extend(indent.bytes());
+                b.extend(l2.bytes.iter());
+                b.push(0);
+                lines.push(format!("const char {}[] = \"{}\\\n{}{}\";", name, l1.spelled, indent, l2.spelled));
+                c.positions.push("literal continued over a splice".into());
+                c.expect.push((name, b));
+            }
             7 => {
                 // a literal inside a skipped conditional region, then literals in active text
                 let dead = gen_lit(&mut rng, 3, false);
@@ -425,7 +442,7 @@ impl Monitor for C09 {
         vec![
             ("distinct_nontrivial".into(), 5000),
             ("set:literal content classes".into(), 25),
-            ("set:literal positions".into(), 10),
+            ("set:literal positions".into(), 11),
             ("literals read back on the emulator".into(), 1000),
             ("character constants compared".into(), 500),
         ]
